@@ -1,4 +1,5 @@
 -- root of the library: every property module (so that `lake build` checks all proofs)
+import ShootVerif.Props.C01
 import ShootVerif.Props.C02
 import ShootVerif.Props.C03
 import ShootVerif.Props.C11
